@@ -120,6 +120,11 @@ def plan(R):
         lines += Gen(rng, seg, nops, big).run()
         lines.append("WM torn %d %d %d" % (torn[0], torn[1], R.seed * 100 + k))
         lines.append("WM byte %d %d %d" % (small, stride, tail_stride))
+    # a long unsynced tail: one record far larger than any write buffer (> 128 KB + a page) in a large segment, torn so that early
+    # sectors are lost and late ones survive
+    bigp = bytes(rng.getrandbits(8) | 1 for _ in range(150000 if R.tier == "quick" else 400000))
+    lines += ["WC %d nil" % (262144 if R.tier == "quick" else 1048576), "WS 1 1 0 1 0 1 1 6162", "WS 1 1 1 1 0 1 2 %s" % core.hx(bigp),
+              "WS 1 1 2 1 0 1 3 7a7a", "WX", "WM torn 6 %d %d" % ((6, 40)[R.tier != "quick"], R.seed * 100 + 77)]
     # a fixed small scenario that always contains the records of the known finding (entry and state records next to each other)
     lines += ["WC 4096 6d657461", "WS 1 1 0 2 0 1 1 616263 0 1 2 nil", "WS 1 1 2 0", "WN 2 1 3", "WS 2 0 2 1 0 2 3 00000000",
               "WS 0 0 0 1 0 2 4 7a", "WX", "WM torn 6 8 1", "WM byte 4000 1 64"]
@@ -139,7 +144,8 @@ def plan(R):
 
 def run(R, ctx):
     R.rule = ("one evaluation = one mutilated directory handed to the real code (OpenForRead+ReadAll, Verify, Open+ReadAll, and Repair+reopen "
-              "when the write-mode error is io.ErrUnexpectedEOF) and to the model; non-trivial = the model's verdict differs from the "
+              "when the write-mode error is io.ErrUnexpectedEOF; for long tails and every 8th torn case also the aftermath: reopen for writing, save and "
+              "sync further records through the region the interrupted write touched, close, reopen: everything must be read back) and to the model; non-trivial = the model's verdict differs from the "
               "untouched directory's (an error, a shortened log, or a repair). Image lines: one per operation, compared byte for byte.")
     binary, err = core.build_harness()
     R.oblige("harness builds against the repository working tree (-tags verif)", "build", binary is not None, err or "")
@@ -155,6 +161,8 @@ def run(R, ctx):
     if rc != 0:
         R.violation("harness-run", dict(kind="tie-broken", engine="wal", lines=lines, summary="wal harness died: " + se[-600:]), found_input=False)
         return
+    aftermath = [l for l in obs if l.startswith("WA ")]
+    obs = [l for l in obs if not l.startswith("WA ")]
     d = core.run_driver(obs)
     known = core.load_known().get("C16", {})
     # ---- statistics for the evidence
@@ -206,6 +214,7 @@ def run(R, ctx):
         operation_sequences=[l.split(" => ")[0][:200] for l in ops[:60]],
         images=[dict(op=l.split(" => ")[0][:60], files=[(x.split(":")[0], int(x.split(":")[1]), core.sha(x.split(":")[2]))
                                                         for x in l.split("files=")[1].split()[0].split(",") if x != "-"]) for l in ops[:40] if "files=" in l],
+        aftermath=[a[3:] for a in aftermath],
         harness_input_lines=len(lines), generator="vlib/props/c16.py Gen v1", tmp=env.get("VERIF_TMP", "default"))
     ok = not d["mismatches"] and not d["unknown"]
     R.oblige("correspondence: segment images (model writer = wal.Create/Save/SaveSnapshot/cut/Close) byte for byte", "correspondence",
@@ -213,9 +222,6 @@ def run(R, ctx):
     R.oblige("correspondence: model verdict = real code verdict on every mutilated directory (ReadAll r/w, Verify, Repair, snapshot Load*)",
              "correspondence", ok, "%d mismatches, %d unknown" % (len(d["mismatches"]), len(d["unknown"])))
     R.suites.append(dict(name="wal", lines=len(obs), evaluations=len(cases), mismatches=len(d["mismatches"]), driver_s=round(d["seconds"], 1)))
-    for i, mm in enumerate((d["mismatches"] + d["unknown"])[:3]):
-        R.violation("wal-tie-%d" % i, dict(kind="tie-broken", engine="wal", summary=mm[:600], lines=lines,
-                                           explanation="the Lean model of the wal/snap packages and the real code disagree on this case"))
     # ---- the property's oracle, evaluated on the real code's results
     kf, other = [], []
     for sid, l in viol:
@@ -237,6 +243,11 @@ def run(R, ctx):
             other += [(0, l) for l in kf]
     elif KNOWN_SIG in known:
         R.extra["known_finding_note"] = "the type-byte signature no longer reproduces"
+    for i, mm in enumerate((d["mismatches"] + d["unknown"])[:3]):
+        # a disagreement with the model is a failing input only when the property's own oracle (below) also fails on the real code
+        R.violation("wal-tie-%d" % i, dict(kind="tie-broken", engine="wal", summary=mm[:600], lines=lines,
+                                           explanation="the Lean model of the wal/snap packages and the real code disagree on this case"),
+                    found_input=bool(other))
     for i, (sid, l) in enumerate(other[:3]):
         R.violation("wal-oracle-%d" % i, dict(kind="impl-violates-spec", engine="wal", summary=l[:700], lines=lines, scenario=sid,
                                               explanation="the real wal/snap code returned something the property forbids for this mutilation"))
